@@ -14,7 +14,16 @@
     selects is the largest latitude over ALL points of the arc (`apex_bound`, `apex_attained`,
     `endpoint_max`, `extreme_is_max`), the smallest by reflection (`extreme_is_min`).
 
-  The floating-point evaluation inside the implementation is not modelled: it is tied by the
+  * purity (`session_state_const`, `session_answers`, `runWith_pure`), the exact numeric boundaries
+    of the closed forms (`extreme_opposite_latitudes`, `extreme_equatorial`, `apexInside_quarter_turn`,
+    `intersection_at_endpoint`, `same_circle_not_diff`, `interior_sign`);
+  * the floating-point evaluation of the plane residual in the standard model of rounding
+    (`plane_residual_error`: within 69u of the exact value; `plane_test_rejects`,
+    `plane_test_accepts`, `margin_decides_plane_test`, `double_plane_thresholds`): the 1e-6 margin
+    at which the harness judges is enough for the plane decision of `point_within_gca`, and a
+    tolerance of `MACHINE_EPSILON` is too small to accept every on-circle point.
+
+  The rest of the floating-point evaluation inside the implementation is not modelled: it is tied by the
   differential run (harness/c14.py), whose verdicts are computed by these definitions at `Rat`.
 -/
 import Mathlib.Tactic.Ring
@@ -836,6 +845,326 @@ theorem runWith_pure (st : Arc K → Op K → Arc K × Ans K)
 end Session
 
 
+/-! ## Exact numeric boundaries (degenerate classes of the closed form and of the intersection) -/
+section Boundaries
+variable {K : Type} [Field K] [LinearOrder K] [IsStrictOrderedRing K]
+
+theorem maxK_eq_max (x y : K) : maxK x y = max x y := by
+  unfold maxK; split
+  · rename_i h; exact (max_eq_right h).symm
+  · rename_i h; exact (max_eq_left (le_of_not_ge h)).symm
+
+theorem minK_eq_min (x y : K) : minK x y = min x y := by
+  unfold minK; split
+  · rename_i h; exact (min_eq_left h).symm
+  · rename_i h; exact (min_eq_right (le_of_not_ge h)).symm
+
+/-- **end points at opposite latitudes** (`z₁ = −z₂`: the denominator of `d_a_max` is exactly 0,
+    numpy divides by zero): neither apex is interior, the maximum is `|z|` and the minimum `−|z|`,
+    both at end points. -/
+theorem extreme_opposite_latitudes (a b : V3 K) (ha : normSq a = 1) (hb : normSq b = 1)
+    (hz : a.z = -b.z) :
+    extremeMax a b = (false, |a.z|) ∧ extremeMin a b = (false, -|a.z|) := by
+  have hden : (a.z + b.z) * (dot a b - 1) = 0 := by rw [hz]; ring
+  obtain ⟨h1, h2⟩ := dmax_degenerate a b ha hb hden
+  unfold extremeMax extremeMin
+  rw [if_neg h1, if_neg h2, maxK_eq_max, minK_eq_min]
+  have hbz : b.z = -a.z := by rw [hz]; ring
+  rw [hbz]
+  have hmax : max a.z (-a.z) = |a.z| := (abs_eq_max_neg).symm
+  have hmin : min a.z (-a.z) = -|a.z| := by
+    rcases le_total 0 a.z with h | h
+    · rw [abs_of_nonneg h, min_eq_right (by linarith)]
+    · rw [abs_of_nonpos h, min_eq_left (by linarith), neg_neg]
+  rw [hmax, hmin]
+  exact ⟨rfl, rfl⟩
+
+/-- **an arc along the equator** (`0/0` in the closed form): every latitude is 0 -/
+theorem extreme_equatorial (a b : V3 K) (ha : normSq a = 1) (hb : normSq b = 1)
+    (haz : a.z = 0) (hbz : b.z = 0) :
+    extremeMax a b = (false, 0) ∧ extremeMin a b = (false, 0) := by
+  have h := extreme_opposite_latitudes a b ha hb (by rw [haz, hbz]; ring)
+  rw [haz] at h
+  simpa using h
+
+/-- **T-junction**: when an end point `c` of the second arc lies on the first arc (different
+    great circles) exactly one point is reported, in the direction of `c`. -/
+theorem intersection_at_endpoint (a b c d : V3 K) (hd : DiffCircles a b c d) (hc : c ≠ zero)
+    (hon : OnArc a b c) :
+    ∃ y, intersections a b c d = [y] ∧ ∃ k l : K, 0 < k ∧ 0 < l ∧ smul k c = smul l y :=
+  crossing_one a b c d c hd hc ⟨hon, onArc_left c d⟩
+
+/-- **arcs on the same great circle** (collinear, overlapping or not) are outside the "different
+    great circles" clause: the candidate direction vanishes, `DiffCircles` is false -/
+theorem same_circle_not_diff (a b c d : V3 K) (hc : dot (cross a b) c = 0)
+    (hd : dot (cross a b) d = 0) : ¬ DiffCircles a b c d := by
+  intro h
+  apply h
+  simp only [dot, cross] at hc hd
+  apply v3_ext <;> simp only [meetDir, cross, zero]
+  · linear_combination (c.x) * hd - (d.x) * hc
+  · linear_combination (c.y) * hd - (d.y) * hc
+  · linear_combination (c.z) * hd - (d.z) * hc
+
+/-- a quarter-turn arc (`a·b = 0`): the closed form's parameter is `d = z₂/(z₁+z₂)`, the apex is
+    interior iff both end points are strictly in the northern half -/
+theorem apexInside_quarter_turn (a b : V3 K) (ha : normSq a = 1) (hb : normSq b = 1)
+    (h90 : dot a b = 0) : ApexInside a b ↔ (0 < a.z ∧ 0 < b.z) := by
+  have hba : dot b a = 0 := by rw [← h90]; simp only [dot]; ring
+  unfold ApexInside
+  rw [rise_unit a b ha, rise_unit b a hb, h90, hba]
+  simp only [zero_mul, sub_zero]
+  exact and_comm
+
+/-- **which apex is interior is read off the sign of `z₁ + z₂`** (used by the repaired closed
+    form, which takes the apex latitude from the circle's normal): north apex interior ⇒
+    `z₁ + z₂ > 0`, south apex interior ⇒ `z₁ + z₂ < 0`. -/
+theorem interior_sign (a b : V3 K) (ha : normSq a = 1) (hb : normSq b = 1) (hv : ValidArc a b) :
+    (ApexInside a b → 0 < a.z + b.z) ∧ (NadirInside a b → a.z + b.z < 0) := by
+  have hc := dot_sq_lt_one a b ha hb hv
+  have hc1 : dot a b < 1 := by nlinarith
+  have hba : dot b a = dot a b := by simp only [dot]; ring
+  have hsum : rise a b + rise b a = (a.z + b.z) * (1 - dot a b) := by
+    rw [rise_unit a b ha, rise_unit b a hb, hba]; ring
+  have hpos : 0 < 1 - dot a b := by linarith
+  constructor
+  · rintro ⟨h1, h2⟩
+    have : 0 < (a.z + b.z) * (1 - dot a b) := by rw [← hsum]; linarith
+    exact (mul_pos_iff_of_pos_right hpos).mp this
+  · rintro ⟨h1, h2⟩
+    have : (a.z + b.z) * (1 - dot a b) < 0 := by rw [← hsum]; linarith
+    by_contra hge
+    rw [not_lt] at hge
+    have := mul_nonneg hge hpos.le
+    linarith
+
+end Boundaries
+
+
+/-! ## Floating-point evaluation of the plane residual (standard model of rounding)
+
+  `IsRnd u f`: `|f x − x| ≤ u|x|` for every `x` (no overflow/underflow).  Every operation site may
+  round differently (`r i`), which covers round-to-nearest and contracted multiply-adds. -/
+section FloatError
+variable {K : Type} [Field K] [LinearOrder K] [IsStrictOrderedRing K]
+
+/-- the standard model of one rounding: relative error at most `u` -/
+def IsRnd (u : K) (f : K → K) : Prop := ∀ x, |f x - x| ≤ u * |x|
+
+/-- `x'` approximates `x` with absolute error at most `e` -/
+def Approx (x' x e : K) : Prop := |x' - x| ≤ e
+
+theorem approx_mono {x' x e e' : K} (h : Approx x' x e) (hle : e ≤ e') : Approx x' x e' :=
+  le_trans h hle
+
+theorem approx_rnd {u : K} {f : K → K} (hf : IsRnd u f) (hu : 0 ≤ u) {x' x e B : K}
+    (h : Approx x' x e) (hB : |x| ≤ B) : Approx (f x') x (e + u * (B + e)) := by
+  unfold Approx at *
+  have h1 : |f x' - x| ≤ |f x' - x'| + |x' - x| := abs_sub_le _ _ _
+  have h2 : |x'| ≤ B + e := by
+    have : |x'| ≤ |x' - x| + |x| := by
+      have := abs_add_le (x' - x) x
+      simpa using this
+    linarith
+  have h3 : |f x' - x'| ≤ u * (B + e) := le_trans (hf x') (mul_le_mul_of_nonneg_left h2 hu)
+  linarith
+
+theorem approx_sub {x' x e y' y f : K} (h1 : Approx x' x e) (h2 : Approx y' y f) :
+    Approx (x' - y') (x - y) (e + f) := by
+  unfold Approx at *
+  have : x' - y' - (x - y) = (x' - x) - (y' - y) := by ring
+  rw [this]
+  exact le_trans (abs_sub _ _) (add_le_add h1 h2)
+
+theorem approx_add {x' x e y' y f : K} (h1 : Approx x' x e) (h2 : Approx y' y f) :
+    Approx (x' + y') (x + y) (e + f) := by
+  unfold Approx at *
+  have : x' + y' - (x + y) = (x' - x) + (y' - y) := by ring
+  rw [this]
+  exact le_trans (abs_add_le _ _) (add_le_add h1 h2)
+
+theorem approx_mul {x' x e y' y f Bx By : K} (h1 : Approx x' x e) (h2 : Approx y' y f)
+    (hx : |x| ≤ Bx) (hy : |y| ≤ By) (he : 0 ≤ e) :
+    Approx (x' * y') (x * y) (e * (By + f) + Bx * f) := by
+  unfold Approx at *
+  have hy' : |y'| ≤ By + f := by
+    have := abs_add_le (y' - y) y
+    have e1 : y' - y + y = y' := by ring
+    rw [e1] at this
+    linarith
+  have : x' * y' - x * y = (x' - x) * y' + x * (y' - y) := by ring
+  rw [this]
+  have hf0 : 0 ≤ f := le_trans (abs_nonneg _) h2
+  have hBx : 0 ≤ Bx := le_trans (abs_nonneg _) hx
+  calc |(x' - x) * y' + x * (y' - y)| ≤ |(x' - x) * y'| + |x * (y' - y)| := abs_add_le _ _
+    _ = |x' - x| * |y'| + |x| * |y' - y| := by rw [abs_mul, abs_mul]
+    _ ≤ e * (By + f) + Bx * f := by
+      apply add_le_add
+      · exact mul_le_mul h1 hy' (abs_nonneg _) he
+      · exact mul_le_mul hx h2 (abs_nonneg _) hBx
+
+/-- every coordinate is at most 1 in absolute value (true of unit vectors: `bounded_of_unit`) -/
+def Bounded (v : V3 K) : Prop := |v.x| ≤ 1 ∧ |v.y| ≤ 1 ∧ |v.z| ≤ 1
+
+theorem bounded_of_unit {v : V3 K} (h : normSq v = 1) : Bounded v := by
+  simp only [normSq, dot] at h
+  refine ⟨?_, ?_, ?_⟩ <;> apply abs_le_one_iff_mul_self_le_one.mpr <;>
+    nlinarith [mul_self_nonneg v.x, mul_self_nonneg v.y, mul_self_nonneg v.z]
+
+/-- a correctly rounded input coordinate -/
+theorem approx_input {u : K} {f : K → K} (hf : IsRnd u f) (hu : 0 ≤ u) {x : K} (hx : |x| ≤ 1) :
+    Approx (f x) x u := by
+  have h0 : Approx x x 0 := by simp [Approx]
+  have := approx_rnd hf hu h0 hx
+  simpa using this
+
+/-- rounded product of two rounded input coordinates -/
+theorem fl_prod_in {u : K} {f g h : K → K} (hf : IsRnd u f) (hg : IsRnd u g) (hh : IsRnd u h)
+    (hu : 0 ≤ u) (h64 : 64 * u ≤ 1) {x y : K} (hx : |x| ≤ 1) (hy : |y| ≤ 1) :
+    Approx (h (f x * g y)) (x * y) (5 * u) := by
+  have hq : 64 * (u * u) ≤ u := by nlinarith [mul_nonneg hu (sub_nonneg.mpr h64)]
+  have m := approx_mul (approx_input hf hu hx) (approx_input hg hu hy) hx hy hu
+  have hxy : |x * y| ≤ 1 := by
+    rw [abs_mul]; exact mul_le_one₀ hx (abs_nonneg _) hy
+  have m' : Approx (f x * g y) (x * y) (3 * u) := approx_mono m (by nlinarith)
+  exact approx_mono (approx_rnd hh hu m' hxy) (by nlinarith)
+
+/-- one coordinate of the computed cross product -/
+theorem fl_cross_comp {u : K} {h : K → K} (hh : IsRnd u h) (hu : 0 ≤ u) (h64 : 64 * u ≤ 1)
+    {P1 P2 t1 t2 : K} (h1 : Approx P1 t1 (5 * u)) (h2 : Approx P2 t2 (5 * u))
+    (ht1 : |t1| ≤ 1) (ht2 : |t2| ≤ 1) : Approx (h (P1 - P2)) (t1 - t2) (13 * u) := by
+  have hq : 64 * (u * u) ≤ u := by nlinarith [mul_nonneg hu (sub_nonneg.mpr h64)]
+  have hB : |t1 - t2| ≤ 2 := le_trans (abs_sub _ _) (by linarith)
+  exact approx_mono (approx_rnd hh hu (approx_sub h1 h2) hB) (by nlinarith)
+
+/-- one rounded term `c_i * p_i` of the computed dot product -/
+theorem fl_term {u : K} {f h : K → K} (hf : IsRnd u f) (hh : IsRnd u h) (hu : 0 ≤ u)
+    (h64 : 64 * u ≤ 1) {c n p : K} (hc : Approx c n (13 * u)) (hn : |n| ≤ 2) (hp : |p| ≤ 1) :
+    Approx (h (c * f p)) (n * p) (19 * u) := by
+  have hq : 64 * (u * u) ≤ u := by nlinarith [mul_nonneg hu (sub_nonneg.mpr h64)]
+  have m := approx_mul hc (approx_input hf hu hp) hn hp (by linarith)
+  have hnp : |n * p| ≤ 2 := by
+    rw [abs_mul]
+    calc |n| * |p| ≤ 2 * 1 := mul_le_mul hn hp (abs_nonneg _) (by norm_num)
+      _ = 2 := by ring
+  have m' : Approx (c * f p) (n * p) (16 * u) := approx_mono m (by nlinarith)
+  exact approx_mono (approx_rnd hh hu m' hnp) (by nlinarith)
+
+/-- the two rounded additions of the computed dot product -/
+theorem fl_sum3 {u : K} {g h : K → K} (hg : IsRnd u g) (hh : IsRnd u h) (hu : 0 ≤ u)
+    (h64 : 64 * u ≤ 1) {q1 q2 q3 t1 t2 t3 : K} (h1 : Approx q1 t1 (19 * u))
+    (h2 : Approx q2 t2 (19 * u)) (h3 : Approx q3 t3 (19 * u)) (b1 : |t1| ≤ 2) (b2 : |t2| ≤ 2)
+    (b3 : |t3| ≤ 2) : Approx (h (g (q1 + q2) + q3)) (t1 + t2 + t3) (69 * u) := by
+  have hq : 64 * (u * u) ≤ u := by nlinarith [mul_nonneg hu (sub_nonneg.mpr h64)]
+  have hB12 : |t1 + t2| ≤ 4 := le_trans (abs_add_le _ _) (by linarith)
+  have s12 : Approx (g (q1 + q2)) (t1 + t2) (43 * u) :=
+    approx_mono (approx_rnd hg hu (approx_add h1 h2) hB12) (by nlinarith)
+  have hB : |t1 + t2 + t3| ≤ 6 := le_trans (abs_add_le _ _) (by linarith)
+  exact approx_mono (approx_rnd hh hu (approx_add s12 h3) hB) (by nlinarith)
+
+/-- **forward error of the plane residual**: for points with coordinates in [-1,1] (unit vectors),
+    handed over as correctly rounded numbers, with ANY arithmetic whose every operation has
+    relative error ≤ u ≤ 1/64, the computed `(a×b)·p` is within `69·u` of the exact value. -/
+theorem plane_residual_error {u : K} (r : Nat → K → K) (hr : ∀ i, IsRnd u (r i)) (hu : 0 ≤ u)
+    (h64 : 64 * u ≤ 1) (a b p : V3 K) (ha : Bounded a) (hb : Bounded b) (hp : Bounded p) :
+    |flResidual r a b p - dot (cross a b) p| ≤ 69 * u := by
+  obtain ⟨ax, ay, az⟩ := ha
+  obtain ⟨bx, by', bz⟩ := hb
+  obtain ⟨px, py, pz⟩ := hp
+  have m : ∀ {x y : K}, |x| ≤ 1 → |y| ≤ 1 → |x * y| ≤ 1 := by
+    intro x y hx hy; rw [abs_mul]; exact mul_le_one₀ hx (abs_nonneg _) hy
+  have two : ∀ {s t : K}, |s| ≤ 1 → |t| ≤ 1 → |s - t| ≤ 2 := by
+    intro s t hs ht; exact le_trans (abs_sub _ _) (by linarith)
+  -- the three coordinates of the computed normal
+  have cx := fl_cross_comp (hr 2) hu h64
+    (fl_prod_in (hr 15) (hr 19) (hr 0) hu h64 ay bz) (fl_prod_in (hr 16) (hr 18) (hr 1) hu h64 az by')
+    (m ay bz) (m az by')
+  have cy := fl_cross_comp (hr 5) hu h64
+    (fl_prod_in (hr 16) (hr 17) (hr 3) hu h64 az bx) (fl_prod_in (hr 14) (hr 19) (hr 4) hu h64 ax bz)
+    (m az bx) (m ax bz)
+  have cz := fl_cross_comp (hr 8) hu h64
+    (fl_prod_in (hr 14) (hr 18) (hr 6) hu h64 ax by') (fl_prod_in (hr 15) (hr 17) (hr 7) hu h64 ay bx)
+    (m ax by') (m ay bx)
+  have tx := fl_term (hr 20) (hr 9) hu h64 cx (two (m ay bz) (m az by')) px
+  have ty := fl_term (hr 21) (hr 10) hu h64 cy (two (m az bx) (m ax bz)) py
+  have tz := fl_term (hr 22) (hr 11) hu h64 cz (two (m ax by') (m ay bx)) pz
+  have b2 : ∀ {n q : K}, |n| ≤ 2 → |q| ≤ 1 → |n * q| ≤ 2 := by
+    intro n q hn hq
+    rw [abs_mul]
+    calc |n| * |q| ≤ 2 * 1 := mul_le_mul hn hq (abs_nonneg _) (by norm_num)
+      _ = 2 := by ring
+  have := fl_sum3 (hr 12) (hr 13) hu h64 tx ty tz
+    (b2 (two (m ay bz) (m az by')) px) (b2 (two (m az bx) (m ax bz)) py)
+    (b2 (two (m ax by') (m ay bx)) pz)
+  unfold Approx at this
+  simpa [flResidual, flDot, flCross, rndV, dot, cross] using this
+
+
+/-- a plane test with threshold `τ` REJECTS every point whose exact residual exceeds `τ + 69u` -/
+theorem plane_test_rejects {u τ : K} (r : Nat → K → K) (hr : ∀ i, IsRnd u (r i)) (hu : 0 ≤ u)
+    (h64 : 64 * u ≤ 1) (a b p : V3 K) (ha : Bounded a) (hb : Bounded b) (hp : Bounded p)
+    (hm : τ + 69 * u < |dot (cross a b) p|) : τ < |flResidual r a b p| := by
+  have h := plane_residual_error r hr hu h64 a b p ha hb hp
+  have : |dot (cross a b) p| ≤ |flResidual r a b p| + |flResidual r a b p - dot (cross a b) p| := by
+    have := abs_sub_le (dot (cross a b) p) (flResidual r a b p) 0
+    simp only [sub_zero] at this
+    rw [abs_sub_comm] at this
+    linarith
+  linarith
+
+/-- a plane test with threshold `τ ≥ 69u` ACCEPTS every point that is exactly on the great circle
+    (a threshold of `MACHINE_EPSILON = 2u` is not covered: the known finding / repaired tolerance) -/
+theorem plane_test_accepts {u τ : K} (r : Nat → K → K) (hr : ∀ i, IsRnd u (r i)) (hu : 0 ≤ u)
+    (h64 : 64 * u ≤ 1) (a b p : V3 K) (ha : Bounded a) (hb : Bounded b) (hp : Bounded p)
+    (h0 : dot (cross a b) p = 0) (hτ : 69 * u ≤ τ) : |flResidual r a b p| ≤ τ := by
+  have h := plane_residual_error r hr hu h64 a b p ha hb hp
+  rw [h0, sub_zero] at h
+  linarith
+
+/-- the margins the driver evaluates (`offCircleBy`, `arcLenMargin` with `tol2 = tol²`) bound the
+    exact residual of unit vectors from below by `tol2` -/
+theorem residual_of_margins (a b p : V3 K) (ha : normSq a = 1) (hb : normSq b = 1)
+    (hp : normSq p = 1) (t2 : K) (ht : 0 ≤ t2) (hoff : offCircleBy t2 a b p = true)
+    (hlen : arcLenMargin t2 a b = true) : t2 ≤ |dot (cross a b) p| := by
+  simp only [offCircleBy, farFromZero, arcLenMargin, decide_eq_true_eq, ha, hb, hp, mul_one] at hoff hlen
+  have h1 : t2 * t2 ≤ dot (cross a b) p * dot (cross a b) p :=
+    le_trans (mul_le_mul_of_nonneg_left hlen ht) hoff
+  rw [← abs_mul_abs_self (dot (cross a b) p)] at h1
+  by_contra hlt
+  rw [not_le] at hlt
+  have := mul_lt_mul'' hlt hlt (abs_nonneg _) (abs_nonneg _)
+  linarith
+
+/-- **the 1e-6 margin is enough for the plane decision**: for unit points judged by the harness
+    (exact margin `tol` from the great circle, arc at least `tol` from degenerate), every
+    evaluation in the standard model with `τ + 69u < tol²` rejects an off-circle point, and every
+    evaluation with `69u ≤ τ` accepts an on-circle point. -/
+theorem margin_decides_plane_test {u τ t2 : K} (r : Nat → K → K) (hr : ∀ i, IsRnd u (r i))
+    (hu : 0 ≤ u) (h64 : 64 * u ≤ 1) (a b p : V3 K) (ha : normSq a = 1) (hb : normSq b = 1)
+    (hp : normSq p = 1) (ht : 0 ≤ t2) (hlen : arcLenMargin t2 a b = true) :
+    (offCircleBy t2 a b p = true → τ + 69 * u < t2 → τ < |flResidual r a b p|) ∧
+    (dot (cross a b) p = 0 → 69 * u ≤ τ → |flResidual r a b p| ≤ τ) := by
+  refine ⟨fun hoff hτ => ?_, fun h0 hτ => ?_⟩
+  · exact plane_test_rejects r hr hu h64 a b p (bounded_of_unit ha) (bounded_of_unit hb)
+      (bounded_of_unit hp) (lt_of_lt_of_le hτ (residual_of_margins a b p ha hb hp t2 ht hoff hlen))
+  · exact plane_test_accepts r hr hu h64 a b p (bounded_of_unit ha) (bounded_of_unit hb)
+      (bounded_of_unit hp) h0 hτ
+
+end FloatError
+
+/-- the numbers for IEEE doubles (`u = 2⁻⁵³`) and the regenerated constants: the as-is threshold
+    `MACHINE_EPSILON` satisfies the rejection condition for the 1e-6 margin (`tol² = 1e-12`) but
+    NOT the acceptance condition `69u ≤ τ` (known finding); `ERROR_TOLERANCE·|n|` with
+    `|n| ≥ 1e-6` (fixes/C14-plane-test-relative-tolerance.patch) satisfies both. -/
+theorem double_plane_thresholds :
+    let u : Rat := 1 / 2 ^ 53
+    let eps : Rat := mkRat Gen.MACHINE_EPSILON_num Gen.MACHINE_EPSILON_den
+    let et : Rat := mkRat Gen.ERROR_TOLERANCE_num Gen.ERROR_TOLERANCE_den
+    64 * u ≤ 1 ∧ eps + 69 * u < 1 / 10 ^ 12 ∧ ¬ (69 * u ≤ eps) ∧
+    69 * u ≤ et * (1 / 10 ^ 6) * (99 / 100) ∧ et * (101 / 100) + 69 * u < 1 / 10 ^ 6 := by
+  decide +kernel
+
+
 /-! ## The regenerated tolerance constants (translator tie)
 
   The harness judges only inputs whose exact margin is ≥ 1e-6 rad and accepts returned points up
@@ -907,6 +1236,28 @@ example : codeInterior (u 3 0 4 5) (u 0 4 3 5) ∧
       = some (.bool true) := by decide +kernel
 example : (runSession (u 3 0 4 5, u 0 3 4 5) [.extMax, .within (v 1 1 2), .extMin]).1
     = (u 3 0 4 5, u 0 3 4 5) := session_state_const _ _
+
+-- the boundary classes exist: opposite latitudes (denominator exactly 0), a quarter turn, a T-junction
+example : normSq (u 3 0 4 5) = 1 ∧ normSq (u 0 3 (-4) 5) = 1 ∧ (u 3 0 4 5).z = -(u 0 3 (-4) 5).z ∧
+    ValidArc (u 3 0 4 5) (u 0 3 (-4) 5) ∧
+    ((u 3 0 4 5).z + (u 0 3 (-4) 5).z) * (dot (u 3 0 4 5) (u 0 3 (-4) 5) - 1) = 0 ∧
+    extremeMax (u 3 0 4 5) (u 0 3 (-4) 5) = (false, mkRat 4 5) := by decide +kernel
+example : dot (u 2 (-2) 1 3) (u 1 2 2 3) = 0 ∧ ApexInside (u 2 (-2) 1 3) (u 1 2 2 3) := by decide +kernel
+example : DiffCircles (v 1 0 0) (v 0 1 0) (v 1 1 0) (v 0 0 1) ∧ v 1 1 0 ≠ zero ∧
+    OnArc (v 1 0 0) (v 0 1 0) (v 1 1 0) ∧
+    intersections (v 1 0 0) (v 0 1 0) (v 1 1 0) (v 0 0 1) = [v 1 1 0] := by decide +kernel
+example : ¬ DiffCircles (v 1 0 0) (v 0 1 0) (v 1 1 0) (v (-1) 1 0) :=
+  same_circle_not_diff _ _ _ _ (by decide +kernel) (by decide +kernel)
+-- the float model is not vacuous: a rounding that inflates every result by 1/64 is in the class,
+-- unit vectors are bounded, and the margin hypotheses hold for a concrete off-circle point
+example : IsRnd (1 / 64 : Rat) (fun x => x * (1 + 1 / 64)) := by
+  intro x
+  have : x * (1 + 1 / 64) - x = 1 / 64 * x := by ring
+  rw [this, abs_mul]
+  norm_num
+example : normSq (u 3 0 4 5) = 1 ∧ normSq (u 0 4 3 5) = 1 ∧ normSq (u 0 0 1 1) = 1 ∧
+    offCircleBy (mkRat 1 (10 ^ 12)) (u 3 0 4 5) (u 0 4 3 5) (u 0 0 1 1) = true ∧
+    arcLenMargin (mkRat 1 (10 ^ 12)) (u 3 0 4 5) (u 0 4 3 5) = true := by decide +kernel
 
 end Examples
 
